@@ -664,6 +664,40 @@ func (c *LinCtx) CondFacts(cond ssa.Value, truth bool, f *Facts, nn nonNegProver
 		if x.Op == token.NOT {
 			c.CondFacts(x.X, !truth, f, nn)
 		}
+		if x.Op == token.MUL {
+			// a flag read from a constant table of booleans (filled at package initialisation): the index lies where
+			// the table holds that flag, when that is one contiguous range
+			if ia, ok := x.X.(*ssa.IndexAddr); ok {
+				if g, ok := ia.X.(*ssa.Global); ok && c.p.assignedOnlyByInit(g) {
+					if v, ok := c.p.initEval().globalValue(g); ok {
+						if arr, ok := v.(*carray); ok {
+							lo, hi, n := -1, -1, 0
+							contiguous := true
+							for i, cell := range arr.elems {
+								b, isB := cell.v.(bool)
+								if !isB {
+									return
+								}
+								if b == truth {
+									if lo < 0 {
+										lo = i
+									} else if hi != i-1 {
+										contiguous = false
+									}
+									hi = i
+									n++
+								}
+							}
+							if n > 0 && contiguous {
+								il := c.linP(ia.Index, nn)
+								f.le = append(f.le, il.scale(-1).addConst(int64(lo))) // lo − idx ≤ 0
+								f.le = append(f.le, il.addConst(-int64(hi)))          // idx − hi ≤ 0
+							}
+						}
+					}
+				}
+			}
+		}
 		return
 	case *ssa.Phi:
 		// φ of boolean constants: the value identifies the incoming edge
@@ -698,6 +732,27 @@ func (c *LinCtx) CondFacts(cond ssa.Value, truth bool, f *Facts, nn nonNegProver
 		return
 	case *ssa.BinOp:
 		var xl, yl Lin
+		// (u >> k) == 0 / != 0 on an unsigned u: u < 2^k / u ≥ 2^k
+		if x.Op == token.EQL || x.Op == token.NEQ {
+			for _, pr := range [][2]ssa.Value{{x.X, x.Y}, {x.Y, x.X}} {
+				sh, ok := pr[0].(*ssa.BinOp)
+				if !ok || sh.Op != token.SHR || !isUnsignedT(sh.X.Type()) {
+					continue
+				}
+				z, isZ := constInt(pr[1])
+				k, isK := constInt(sh.Y)
+				if !isZ || z != 0 || !isK || k < 1 || k > 62 {
+					continue
+				}
+				ul := c.linP(sh.X, nn)
+				isZero := (x.Op == token.EQL) == truth
+				if isZero {
+					f.le = append(f.le, ul.addConst(-(int64(1)<<uint(k) - 1))) // u ≤ 2^k − 1
+				} else {
+					f.le = append(f.le, ul.scale(-1).addConst(int64(1)<<uint(k))) // 2^k − u ≤ 0
+				}
+			}
+		}
 		if _, ok := intBasic(x.X.Type()); ok {
 			xl, yl = c.linP(x.X, nn), c.linP(x.Y, nn)
 		} else if isNilConst(x.Y) || isNilConst(x.X) {
